@@ -306,7 +306,11 @@ def run(ctx):
                                         'IGNORE_WHITESPACE': False, 'DONT_ACCEPT_BLANKLINE': True})
     clean = [t for t in small if t == t.strip() and ' \n' not in t and '\t' not in t]
     non = 0
-    for w in clean:
+    import itertools as _it
+    toks = ['a', 'b', ' ', '\n', '...']
+    wants_rel = sorted({''.join(t) for n_t in range(1, 5) for t in _it.product(toks, repeat=n_t)})
+    wants_rel = [t for t in wants_rel if t == t.strip() and ' \n' not in t]
+    for w in wants_rel:
         if not w:
             continue
         for g in clean:
